@@ -156,11 +156,21 @@ Theorem C05_net_pruning_input_group_refuted : exists net lays lays' dw c s,
   ein_of net lays' true dw < ein_of net lays true dw.
 Proof. exact net_pruning_input_group_refuted. Qed.
 
+(* a module invoked several times: per-invocation specs (ops_bit, latency) sum over the call sites, each with its own
+   output shape; without repeated invocations shared and per-invocation sums coincide *)
+Theorem C05_net_cost_per_invocation : forall net lays cf intended,
+  mps_net_cost_sh net lays false cf intended = mps_net_cost net lays cf intended.
+Proof. exact net_cost_per_invocation. Qed.
+Theorem C05_net_cost_shared_no_reuse : forall net lays cf intended shared,
+  (forall i, l_reuse (lay_at lays i) = false) ->
+  mps_net_cost_sh net lays shared cf intended == mps_net_cost net lays cf intended.
+Proof. exact net_cost_shared_no_reuse. Qed.
+
 (* non-vacuity, network level: conv 3->4 (3x3, 4x4 map) -> relu -> flatten(16) -> linear 64->2, per-layer search,
    selected (in, w) bits (8, 4) and (8, 2): 3*3*3*4*4 + 64*2*2 *)
 Example C05_net_example :
-  let l1 := mkLay [3; 3; 4; 4] [2; 8] (onehotQ 1 2) [4; 8] false (onehotQ 0 2) [] None in
-  let l2 := mkLay [1; 1; 1; 1] [2; 8] (onehotQ 1 2) [2; 4] false (onehotQ 0 2) [] None in
+  let l1 := mkLay [3; 3; 4; 4] [2; 8] (onehotQ 1 2) [4; 8] false (onehotQ 0 2) [] None false in
+  let l2 := mkLay [1; 1; 1; 1] [2; 8] (onehotQ 1 2) [2; 4] false (onehotQ 0 2) [] None false in
   let net := [NIn 3; NConv 0 3 4; NProp 1; NFlat 2 16; NLin 3 64 2] in
   mps_net_cost net [no_lay; l1; no_lay; no_lay; l2] params_bit false == 3 * 3 * 3 * 4 * 4 + 64 * 2 * 2 /\
   onehot_layers net [no_lay; l1; no_lay; no_lay; l2] (fun _ => 1%nat) (fun _ => 0%nat) /\
@@ -195,3 +205,5 @@ Print Assumptions C05_net_producer_pruning_lowers_consumer.
 Print Assumptions C05_net_producer_pruning_lowers_consumer_cost.
 Print Assumptions C05_net_pruning_behind_depthwise_refuted.
 Print Assumptions C05_net_pruning_input_group_refuted.
+Print Assumptions C05_net_cost_per_invocation.
+Print Assumptions C05_net_cost_shared_no_reuse.
